@@ -12,6 +12,7 @@ const ConnectTSFormat = "0102150405"
 
 // Now ...
 func Now() time.Time {
+	clockYield()
 	return time.Now()
 }
 
